@@ -3,8 +3,10 @@ Model of in_toto/rulelib.go (`UnpackRule`), the `Set` algebra of in_toto/util.go
 `verifyMatchRule` / `VerifyArtifacts` of in_toto/verifylib.go.
 
 Go maps are association lists with unique keys; `nil` maps are `none` (reflect.DeepEqual and
-map lookups distinguish/produce them).  The in-place clean-up of artifact maps done by
-`verifyMatchRule` is modelled by threading the link context (`Ctx`) through the interpreter.
+map lookups distinguish/produce them).  Artifact names are cleaned (`path.Clean`) on COPIES of the
+artifact maps (`cleanArts`, Go `cleanArtifactPaths`); the link context (`Ctx`) is still handed
+through the interpreter, and handed back unchanged (`verifyArtifacts_leaves_links_untouched`) —
+until the repair of findings F21/F22 the code rewrote the maps of the links in place.
 The glob matcher is a parameter (`glob pattern name`), instantiated with `Glob.filterHas`.
 -/
 import InToto.Model.Basic
@@ -183,7 +185,10 @@ def join2 (a b : Str) : Str :=
 def trimPrefix (s p : Str) : Str :=
   if p.isPrefixOf s then s.drop p.length else s
 
-/-- Go `verifyMatchRule`: consumed source paths and the context after the in-place clean-up. -/
+/-- Go `verifyMatchRule`: consumed source paths.  The artifact names of the source and of the
+    destination map are cleaned on COPIES (Go `cleanArtifactPaths` returns a new map); the links
+    themselves are never written to, the context is handed back as it came (kept in the result type
+    so that the rule loop keeps its shape). -/
 def verifyMatchRule (glob : Str → Str → Bool)
     (pattern srcPrefix dstPrefix : Str) (dstType : ArtType) (dstName : Str)
     (srcName : Str) (srcType : ArtType) (queue : List Str) (ctx : Ctx) :
@@ -193,11 +198,9 @@ def verifyMatchRule (glob : Str → Str → Bool)
   | some none => ([], ctx)               -- destination payload is not a link
   | some (some _) =>
     let pat := if pattern = [] then [] else Path.clean pattern
-    -- in-place clean-up of the source map, then of the destination map
-    let ctx1 := ctxUpdate ctx srcName fun l => setSel srcType l (cleanArts (sel srcType l))
-    let ctx2 := ctxUpdate ctx1 dstName fun l => setSel dstType l (cleanArts (sel dstType l))
-    let srcArts : Arts := ctxArts ctx2 srcName srcType
-    let dstArts : Arts := ctxArts ctx2 dstName dstType
+    -- cleaned copies of the source map and of the destination map
+    let srcArts : Arts := cleanArts (ctxArts ctx srcName srcType)
+    let dstArts : Arts := cleanArts (ctxArts ctx dstName dstType)
     let sp := normPrefix srcPrefix
     let dp := normPrefix dstPrefix
     let consumed := queue.filter fun srcPath =>
@@ -210,7 +213,7 @@ def verifyMatchRule (glob : Str → Str → Bool)
           let dstPath := Path.clean (join2 dp base)
           if !artsHas dstArts dstPath then false
           else artsGet srcArts srcPath == artsGet dstArts dstPath
-    (consumed, ctx2)
+    (consumed, ctx)
 
 structure Item where
   name : Str
@@ -256,12 +259,11 @@ def verifyItem (glob : Str → Str → Bool) (ctx : Ctx) (item : Item) : Outcome
   | none => .err "no-link-for-item"
   | some none => .err "invalid-metadata"
   | some (some link0) =>
-    -- the item's own artifact maps are cleaned in place first (Go: `cleanArtifactPaths(materials)`,
-    -- `cleanArtifactPaths(products)` at the top of the item's round; finding F21): the sets of
-    -- created / deleted / modified artifacts are computed from the cleaned maps
+    -- cleaned COPIES of the item's own artifact maps (Go: `materials = cleanArtifactPaths(materials)`,
+    -- `products = cleanArtifactPaths(products)`; findings F21, F22): the sets of created / deleted /
+    -- modified artifacts are computed from them; the links in `ctx` are not written to
     let cleanLink : LinkArts → LinkArts := fun l =>
       { materials := cleanArts l.materials, products := cleanArts l.products }
-    let ctx := ctxUpdate ctx item.name cleanLink
     let link := cleanLink link0
     let materialPaths := dedup ((artsKeys link.materials).map Path.clean)
     let productPaths := dedup ((artsKeys link.products).map Path.clean)
@@ -278,7 +280,8 @@ def verifyItem (glob : Str → Str → Bool) (ctx : Ctx) (item : Item) : Outcome
     | .err e => .err e
     | .panic e => .panic e
 
-/-- Go `VerifyArtifacts` (the result context is the caller-visible state of the link maps). -/
+/-- Go `VerifyArtifacts` (the result context is the caller-visible state of the link maps: unchanged,
+    theorem `verifyArtifacts_leaves_links_untouched`). -/
 def verifyArtifacts (glob : Str → Str → Bool) : List Item → Ctx → Outcome Ctx
   | [], ctx => .ok ctx
   | item :: items, ctx =>
